@@ -69,7 +69,11 @@ class TagEnv(object):
   def stored(self, x):
     self.cache._Cache = None
     p = self.cache.CacheFeedingProcessor()
-    list(p.process(x, (1.0, 2.0)))
+    try:
+      list(p.process(x, (1.0, 2.0)))
+    except Exception as e:
+      self.cache._Cache = None
+      return '<process() raised %s: the datapoint is lost>' % type(e).__name__
     keys = list(self.cache.MetricCache().keys())
     self.cache._Cache = None
     return keys[0] if len(keys) == 1 else '<%d keys>' % len(keys)
@@ -78,7 +82,11 @@ class TagEnv(object):
     rec = Recorder()
     self.state.client_manager = rec
     p = self.client.RelayProcessor()
-    list(p.process(x, (1.0, 2.0)))
+    try:
+      list(p.process(x, (1.0, 2.0)))
+    except Exception as e:
+      self.state.client_manager = None
+      return '<process() raised %s: the datapoint is lost>' % type(e).__name__
     self.state.client_manager = None
     return rec.names[0] if len(rec.names) == 1 else '<%d names>' % len(rec.names)
 
